@@ -326,7 +326,7 @@ def manual(sp):
 # ---------------------------------------------------------------------------------------------------------------
 # generator
 
-KINDS = [("ident", 3), ("qs", 3), ("tmpl", 8), ("letcode", 4), ("hof", 4), ("rec", 4), ("reclift", 3), ("liftdiv", 3), ("nested", 3),
+KINDS = [("ident", 3), ("qs", 3), ("tmpl", 8), ("letcode", 4), ("hof", 4), ("rec", 4), ("reclift", 3), ("liftdiv", 3), ("liftif", 3), ("nested", 3),
          ("genlam", 2)]
 
 
@@ -471,6 +471,16 @@ class SGen(coregen.Gen):
             # K / $(lift_f(E(n))): the sign of a zero and the magnitude of a huge value are both visible in the quotient
             m = self.mname()
             self.macros.append(MFn(m, ["n"], Node("quote", Node("bin", "div", self.lit(), Node("splice", Node("lift", self.mnum("n")))))))
+            return Node("mcall", m, [Node("lit", "%d.0" % r.below(4))])
+        if kind == "liftif":
+            # if ($(lift_f(E(n)))) A else B: a number computed at the macro stage as a CONDITION — negative, zero or positive
+            # (the truth test of the language is `> 0`; seeded C09d folded a literal condition with `!= 0`)
+            m = self.mname()
+            e = Node("bin", "sub", Node("bin", "mul", Node("var", "n"), Node("lit", r.pick(["1.0", "0.5", "2.0"]))),
+                     Node("lit", r.pick(["0.5", "1.0", "1.5", "2.0", "3.0"])))
+            a, b = r.pick([("3.0", "7.0"), ("0.25", "100.0"), ("1.5", "2.5")])
+            body = Node("if", Node("splice", Node("lift", e)), Node("lit", a), Node("lit", b))
+            self.macros.append(MFn(m, ["n"], Node("quote", body)))
             return Node("mcall", m, [Node("lit", "%d.0" % r.below(4))])
         if kind == "nested":
             m, h, g = self.mname(), self.fresh("h"), self.fresh("h")
